@@ -36,6 +36,13 @@ def _ptrnet(env):
     return PointerNetworkPolicy(env_name=env.name, embed_dim=16, hidden_dim=16)
 
 
+def _ptrnet_outer_mask_only(env):
+    """documented non-default flags: glimpses unmasked, pointer logits masked"""
+    from rl4co.models.zoo import PointerNetworkPolicy
+
+    return PointerNetworkPolicy(env_name=env.name, embed_dim=16, hidden_dim=16, mask_inner=False, mask_logits=True)
+
+
 def _matnet(env):
     from rl4co.models.zoo import MatNetPolicy
 
@@ -85,7 +92,7 @@ def _heatmap(env):
     return ConstructivePolicy(encoder=_HeatmapEncoder(), decoder=NonAutoregressiveDecoder(), env_name=env.name)
 
 
-FACTORIES = dict(heatmap=_heatmap, am=_am, am_inst=_am_inst, symnco=_symnco, ham=_ham, ptrnet=_ptrnet, matnet=_matnet, polynet=_polynet, l2d=_l2d, mdam=_mdam)
+FACTORIES = dict(heatmap=_heatmap, am=_am, am_inst=_am_inst, symnco=_symnco, ham=_ham, ptrnet=_ptrnet, ptrnet_mi0=_ptrnet_outer_mask_only, matnet=_matnet, polynet=_polynet, l2d=_l2d, mdam=_mdam)
 
 # (policy key, spec key, flags).  follows_base: forward is ConstructivePolicy.forward (decoder protocol usable by the harness)
 PAIRS = [
@@ -107,6 +114,7 @@ PAIRS = [
     ("symnco", "tsp", dict(base=True)),
     ("ham", "pdp", dict(base=True)),
     ("ptrnet", "tsp", dict(base=False, eval_kw="eval_tours")),
+    ("ptrnet_mi0", "tsp", dict(base=False, eval_kw="eval_tours")),
     ("matnet", "atsp", dict(base=True, rng_at_inference=True)),
     ("polynet", "tsp", dict(base=False, polynet=True)),
     ("polynet", "cvrp", dict(base=False, polynet=True)),
